@@ -376,6 +376,23 @@ func runC10(w *core.W) {
 			}
 		}
 	}
+	// 3d. pairs of names that collide under the usual 32-bit string hashes (FNV-1a, FNV-1, djb2, sdbm, Java's, CRC-32, Adler-32,
+	// MurmurHash3): distinct names stay distinct and each is still reported exactly once, however often it is read
+	collide := [][2]string{{"costarring", "liquid"}, {"declinate", "macallums"}, {"altarage", "zinke"}, {"Aa", "BB"}, {"AaAa", "BBBB"}, {"hetairas", "mentioner"}, {"heliotropes", "neurospora"},
+		{"depravement", "serafins"}, {"stylist", "subgenera"}, {"joyful", "synaphea"}, {"redescribed", "urites"}, {"dram", "vivency"}, {"plumless", "buckeroo"}, {"codding", "gnu"},
+		{"xomiimhi", "bataorsojo"}, {"ortaminofu", "yuyukuyu"}, {"fudiwius", "dielriba"}, {"kuorcojo", "ankuelqumi"}, {"hiyuririga", "mipaimvejo"}, {"pacozehi", "norilepael"},
+		{"gasokudiyu", "gasoimkupa"}, {"hisoququdi", "fufusoxoze"}, {"talemiwipa", "vecozexoan"}, {"anwiimdi", "panoanta"}, {"elpaelno", "dihiorel"}, {"dihiorel", "paelelno"}}
+	for pi, pr := range collide {
+		if !w.Mine(pi) {
+			continue
+		}
+		for _, xy := range [][2]string{pr, {pr[1], pr[0]}} {
+			for _, t := range []string{"%x > 0 ? %y * rate : %y", "[%x, %y, %y]", "%x + %y + %y + %x + %y", "f(%y, %x, %y, %y)", "%x.k + %y.k + %y.k", "o.%x + o.%y + o.%y", "$l = %x, %y + %y + $l"} {
+				c10Fields(w, &FieldCase{Src: strings.NewReplacer("%x", xy[0], "%y", xy[1]).Replace(t)})
+				w.Count("hash_collision_name_cases")
+			}
+		}
+	}
 	// 4. repeated mentions: names and paths that differ only in letter case, in a prefix, or not at all, in every order
 	// (the reported fields are the DISTINCT reads: each exactly once, whatever the order of mention)
 	names := []string{"a", "A", "a.b", "A.b", "a.B", "$l", "$L", "aa", "Aa", "a.b.c", "ab", longKeyA, longKeyB, "m." + longKeyA, "__t", "___t", "_t", "__t.__u"}
